@@ -68,16 +68,17 @@ abbrev World := Ref → Blob
 
 def treeFuel : Nat := 16
 
-/-- blobs read by `schema.FileReader` over a parts list, depth first (filereader.go:317 readerForOffset) -/
+/-- blobs read by `schema.FileReader` over a parts list, depth first (filereader.go:317 readerForOffset);
+the fuel bounds the depth of the bytes tree -/
 def partDeps (W : World) : Nat → List Part → List Ref
-  | _, [] => []
   | 0, _ => []
-  | n + 1, .chunk r _ :: ps => r :: partDeps W (n + 1) ps
-  | n + 1, .hole _ :: ps => partDeps W (n + 1) ps
-  | n + 1, .bytes r _ :: ps =>
-    (r :: match (W r).kind with
-          | .bytes sub => partDeps W n sub
-          | _ => []) ++ partDeps W (n + 1) ps
+  | n + 1, ps => ps.flatMap fun p =>
+    match p with
+    | .chunk r _ => [r]
+    | .hole _ => []
+    | .bytes r _ => r :: (match (W r).kind with
+                          | .bytes sub => partDeps W n sub
+                          | _ => [])
 
 /-- blobs read by `DirReader.StaticSet` (dirreader.go:105 staticSet), and the members it returns -/
 def ssetWalk (W : World) : Nat → Ref → List Ref × List Ref
@@ -480,6 +481,11 @@ def Valid (W : World) (ver : Nat) : State → List Act → Prop
   | _, [] => True
   | s, a :: as => a.ok s = true ∧ Valid W ver (step W ver s a) as
 
+/-- `Valid` as a program -/
+def validB (W : World) (ver : Nat) : State → List Act → Bool
+  | _, [] => true
+  | s, a :: as => a.ok s && validB W ver (step W ver s a) as
+
 /-! ## the canonical index of a blob set -/
 
 inductive Status where
@@ -680,6 +686,19 @@ def receive (W : World) (s : State) (b : Ref) : State :=
 
 /-- index.New before 598c029: initNeededMapsLocked re-created the deletes cache -/
 def restart (ver : Nat) (s : State) : State := { s.restart ver with deletes := [] }
+
+def reidx (W : World) (s : State) (b : Ref) : State :=
+  if s.ready.contains b && s.src.contains b then
+    receive W { s with ready := s.ready.filter (fun x => x != b) } b
+  else s
+
+def step (W : World) (ver : Nat) (s : State) : Act → State
+  | .src b => s.srcAdd b
+  | .recv b => receive W s b
+  | .reidx b => reidx W s b
+  | .restart => restart ver s
+
+def run (W : World) (ver : Nat) (s : State) (acts : List Act) : State := acts.foldl (step W ver) s
 
 end Old
 
